@@ -63,7 +63,7 @@ Definition run_c10 (inp : list Z) : list Z :=
   match inp with
   | 1 :: rest =>
     match pall (plist pop) rest with
-    | Some ops => 0 :: Z.of_nat (length ops) :: esteps init (run K0 init ops)
+    | Some ops => 0 :: Z.of_nat (length ops) :: esteps init (run_ops K0 init ops)
     | None => emalformed
     end
   | _ => emalformed
